@@ -601,8 +601,15 @@ def do_backup(options):
         do_full_backup(options)
         return
     srcsz = os.path.getsize(options.file)
-    if options.quick:
+    quick = options.quick
+    if quick:
         fn, startpos, endpos, sum = scandat(repofiles)
+        if fn is not None and startpos == endpos:
+            # The last increment is empty (a backup taken while only an
+            # unfinished transaction had been added): its checksum says
+            # nothing about the source file.  Compare thoroughly.
+            quick = False
+    if quick:
         # If the .dat file was missing, or was empty, do a full backup
         if (fn, startpos, endpos, sum) == (None, None, None, None):
             log('missing or empty .dat file (full backup)')
